@@ -8,7 +8,7 @@
 Exit codes: 0 held on everything explored (KNOWN-FINDING lines possible), 1 violation(s) not listed in
 known_findings.json (one "VIOLATION property=<id> replay=<path>" line each), 2 harness failure / inconclusive.
 """
-import argparse, concurrent.futures as cf, glob, hashlib, json, os, re, shutil, subprocess, sys, time
+import argparse, threading, concurrent.futures as cf, glob, hashlib, json, os, re, shutil, subprocess, sys, time
 
 VERIF = os.path.dirname(os.path.dirname(os.path.abspath(__file__)))
 REPO = os.environ.get('VERIF_REPO', '/repo')
@@ -60,14 +60,14 @@ def build(source, variant, extra_flags=()):
     out = os.path.join(BUILD, 'bin', '%s.%s.%s' % (os.path.splitext(source)[0], variant, key))
     if os.path.exists(out):
         return out, None
-    tmp = out + '.tmp%d' % os.getpid()
+    tmp = out + '.tmp%d_%d' % (os.getpid(), threading.get_ident())
     r = sh(cmd + [src, '-o', tmp] + VARIANTS[variant].get('libs', []))
     if r.returncode != 0:
         return None, 'build failed: %s\n%s' % (' '.join(cmd + [src]), r.stderr[-6000:])
     os.replace(tmp, out)
     # drop stale binaries of the same job
     for old in glob.glob(os.path.join(BUILD, 'bin', '%s.%s.*' % (os.path.splitext(source)[0], variant))):
-        if old != out and not old.endswith('.tmp%d' % os.getpid()):
+        if old != out and '.tmp' not in old:
             try:
                 os.remove(old)
             except OSError:
@@ -308,11 +308,12 @@ def main():
     if a.only_job:
         jobs = [j for j in jobs if j['name'] == a.only_job]
     # build first (parallel), then run
+    uniq = sorted(set((j['source'], j['variant'], tuple(j.get('cxxflags', ()))) for j in jobs))
     with cf.ThreadPoolExecutor(max_workers=12) as ex:
-        builds = list(ex.map(lambda j: build(j['source'], j['variant'], j.get('cxxflags', ())), jobs))
-    for (exe, err), j in zip(builds, jobs):
+        builds = list(ex.map(lambda t: build(*t), uniq))
+    for (exe, err), t in zip(builds, uniq):
         if err:
-            print('HARNESS-FAILURE: build of %s (%s) failed' % (j['name'], j['variant']))
+            print('HARNESS-FAILURE: build of %s (%s) failed' % (t[0], t[1]))
             print(err)
             sys.exit(2)
 
